@@ -440,7 +440,18 @@ func (w *seqWorld) exec(c *seqCmd) {
 						if p.low && !p.got {
 							select {
 							case <-p.done:
+								// a waiter of an entry evicted from this pool EARLIER (a resubmission attached to the evicted
+								// slot's lookup entry) reports "evicted" at any time: it is not this eviction's victim
+								late := false
+								for _, q := range in.poolSubs {
+									if q != p && q.got && q.err != nil && errors.Is(q.err, ctlog.VerifErrEvicted) && q.entry.KeyID == p.entry.KeyID {
+										late = true
+									}
+								}
 								w.report(p)
+								if late {
+									continue
+								}
 								found = true
 								// duplicates attached to the victim's slot are woken by the same close: let them report
 								// now, so that the order of the trace does not depend on goroutine scheduling
